@@ -140,6 +140,14 @@ fn dur_us(d: Option<Duration>) -> i64 {
 pub fn hop_json(h: &trippy_core::Hop, full: bool, st: &State, flow: trippy_core::FlowId) -> Value {
     let mut v = json!({"ttl":h.ttl(),"sent":h.total_sent(),"recv":h.total_recv(),"failed":h.total_failed(),
         "is_tgt":st.is_target(h, flow),"in_round":st.is_in_round(h, flow)});
+    v.as_object_mut().unwrap().insert(
+        "nat".into(),
+        json!(match h.last_nat_status() {
+            NatStatus::NotApplicable => "na",
+            NatStatus::NotDetected => "no",
+            NatStatus::Detected => "yes",
+        }),
+    );
     if full {
         let o = v.as_object_mut().unwrap();
         o.insert("fl".into(), json!(h.total_forward_loss()));
@@ -165,11 +173,6 @@ pub fn hop_json(h: &trippy_core::Hop, full: bool, st: &State, flow: trippy_core:
         o.insert("lseq".into(), json!(h.last_sequence()));
         o.insert("lkind".into(), json!(h.last_icmp_packet_type().map_or("none", |k| kind_code(k).0)));
         o.insert("tos".into(), json!(h.tos().map_or(-1, |t| i64::from(t.0))));
-        o.insert("nat".into(), json!(match h.last_nat_status() {
-            NatStatus::NotApplicable => "na",
-            NatStatus::NotDetected => "no",
-            NatStatus::Detected => "yes",
-        }));
         o.insert("ext".into(), ext_json(h.extensions()));
     }
     let _ = dur_us;
